@@ -178,13 +178,8 @@ def PowerImage (s : Fs) (img : Image) : Prop :=
 /-- executable enumeration of one power-loss choice: `keepDir p` / `keepData i` say whether the
     volatile (true) or the durable (false) version of the entry / content survives. -/
 def crashPowerWith (s : Fs) (keepDir : Path → Bool) (keepData : Nat → Bool) : Image :=
-  let names := (s.dir.map (·.1) ++ s.ddir.map (·.1)).eraseDups
-  names.filterMap (fun p =>
-    let bind := if keepDir p then aget p s.dir else aget p s.ddir
-    match bind with
-    | some i =>
-      let f := if keepData i then (aget i s.data).getD {} else (aget i s.ddata).getD {}
-      some (p, f)
-    | none => none)
+  let sel : Nat → Inode := fun i => if keepData i then (aget i s.data).getD {} else (aget i s.ddata).getD {}
+  (s.dir.filter (fun x => keepDir x.1)).map (fun x => (x.1, sel x.2)) ++
+  (s.ddir.filter (fun x => !keepDir x.1)).map (fun x => (x.1, sel x.2))
 
 end Badger
